@@ -136,7 +136,7 @@ def classes_of(case):
         out.append("negative_rejected")
     if case["kind"] == "range":
         out.append(f"range_args={len(case['args'])}")
-        if len(intended(case)) > 1:
+        if not case.get("has_negative") and len(intended(case)) > 1:
             out.append("range_fp_boundary_two_lengths_accepted")
     if case["kind"] == "linspace":
         out.append("linspace_default_num" if len(case["args"]) == 2 else "linspace_num")
@@ -268,7 +268,32 @@ def _strategies():
         text = draw(st.sampled_from(["range", "arange", "np.arange"])) + "(" + join(draw, args) + ")"
         return {"kind": "range", "args": args, "text": text}
 
-    return st.one_of(seq_case(), seq_case(), linspace_case(), range_case())
+    @st.composite
+    def negative_generated_case(draw):
+        # linspace / range forms that contain a negative distance (descending through zero, or starting below zero):
+        # whatever the syntax, negative distances must be rejected
+        from decimal import Decimal
+
+        def fmt(fr):
+            return format(Decimal(fr.numerator) / Decimal(fr.denominator), "f")
+        hi = Fraction(draw(st.integers(0, 3000)), 1000)
+        lo = -Fraction(draw(st.integers(1, 3000)), 1000)
+        descending = draw(st.booleans())
+        if draw(st.booleans()):
+            n = draw(st.integers(2, 12))
+            args = [fmt(hi), fmt(lo), str(n)] if descending else [fmt(lo), fmt(hi if hi > 0 else Fraction(1)), str(n)]
+            text = "linspace(" + join(draw, args) + ")"
+            kind = "linspace"
+        else:
+            step = Fraction(draw(st.integers(50, 1000)), 1000)
+            if descending:
+                lo = lo - step  # the stop is exclusive: make sure at least one generated point lies below zero
+            args = [fmt(hi), fmt(lo), fmt(-step)] if descending else [fmt(lo), fmt(hi + 1), fmt(step)]
+            text = draw(st.sampled_from(["range", "arange"])) + "(" + join(draw, args) + ")"
+            kind = "range"
+        return {"kind": kind, "args": args, "text": text, "has_negative": True}
+
+    return st.one_of(seq_case(), seq_case(), linspace_case(), range_case(), negative_generated_case())
 
 
 def _hyp_shard(arg):
@@ -377,7 +402,7 @@ def run(tier):
     rule = ("Hypothesis text generation: non-negative decimals with <=6 significant digits in plain/scientific/'+'/leading-dot "
             "spellings; lists, tuples, bare comma lists (any order, 1..8 distinct members), single numbers, "
             "linspace(a,b[,n]) with a<b and n in 2..60, range/arange/np.arange with 1..3 arguments (start<stop, step>0, "
-            "<=400 points), random whitespace; one input in ten carries a negative member and must be rejected. "
+            "<=400 points), random whitespace; one list input in ten carries a negative member, and linspace/range forms that run below zero (descending through zero or starting negative) are generated as well: all must be rejected. "
             "Non-trivial = accepted grid with >=3 radii (>=2 for explicit lists); distinct = distinct input text.")
     return res, rule, {"assumptions": [
         "not generated: negative zero, descending linspace/range, duplicate radii (outside the documented usage)",
